@@ -58,13 +58,16 @@ if _a == "importRaises":
 import experiment.model.codes as _codes
 _CTX = {"possible": "RestartContextRestartPossible", "notRequired": "RestartContextRestartNotRequired",
         "notPossible": "RestartContextRestartNotPossible", "failed": "RestartContextHookFailed",
-        "hookNotAvailable": "RestartContextHookNotAvailable", "conditionsNotMet": "RestartContextRestartConditionsNotMet"}
+        "hookNotAvailable": "RestartContextHookNotAvailable", "conditionsNotMet": "RestartContextRestartConditionsNotMet",
+        "finishPossible": "RestartContextRestartPossible", "finishNotRequired": "RestartContextRestartNotRequired"}
 
 
 def _restart(workingDirectory, restarts, componentName, log, exitReason, exitCode):
     import harness.world_c12 as _w
     _w.HOOK_CALLS.append({"file": os.path.basename(__file__), "restarts": restarts, "component": componentName,
                           "exitReason": exitReason, "dir": workingDirectory})
+    if _w.ON_HOOK[0] is not None:       # something that happens elsewhere while the hook runs (another thread in reality)
+        _w.ON_HOOK[0]()
     if _a in _CTX:
         return _codes.restartContexts[_CTX[_a]]
     if _a == "true":
@@ -90,6 +93,7 @@ if _a != "noRestartFn":
 
 
 HOOK_CALLS = []      # appended to by the hook files (same process)
+ON_HOOK = [None]     # callable run by the hook files while they are consulted (an interleaving point inside Engine.restart)
 
 
 class InertScheduler(reactivex.scheduler.scheduler.Scheduler):
@@ -263,6 +267,8 @@ def flowir_component(name, cfg):
         wa["restartHookFile"] = HOOK_NAMED if cfg["onDisk"] else HOOK_ABSENT
     if cfg["kind"] == "repeating":
         wa["repeatInterval"] = 5
+    if cfg.get("migratable"):
+        wa["isMigratable"] = True
     comp = {"name": name, "stage": 0, "command": {"executable": "echo", "arguments": "x"}, "workflowAttributes": wa}
     if cfg["backend"] in ("sim", "simoff"):
         comp["resourceManager"] = {"config": {"backend": "simulator"}}
@@ -323,16 +329,33 @@ class Instance:
         want_type = "simulator" if self.cfg["backend"] in ("sim", "simoff") else "local"
         if self.job.type != want_type:
             raise RuntimeError("backend of %s is %s" % (self.job.reference, self.job.type))
+        if bool(self.job.isMigratable) != bool(self.cfg.get("migratable")):
+            raise RuntimeError("isMigratable of %s is %s" % (self.job.reference, self.job.isMigratable))
         self.runs = 0
         engine = self.engine
+
+        self._armed = False          # run() was called and the launch has not happened yet (see kill_stub)
 
         def run_stub(*a, **k):
             # what Engine.run does synchronously before any thread is involved
             self.runs += 1
+            self._armed = True
             engine._runCalled = eng.datetime.datetime.now()
             engine._consume = True
             engine._prime()
         engine.run = run_stub
+        if not self.repeating:
+            real_kill = engine.kill
+
+            def kill_stub():
+                # Engine.kill() between run() and the launch of the task: the real pipeline abandons the launch and records
+                # Killed (error path of run(); bound to the real pipeline by part 4 of the check).  The start does not count.
+                if self._armed and engine.isAlive():
+                    self._armed = False
+                    self.runs -= 1
+                    engine._setExitReason(codes.exitReasons["Killed"])
+                real_kill()
+            engine.kill = kill_stub
         self._threads_seen = len(_RecordedThread.started)
         self._pending_thread = None
         world.take_calls()
@@ -346,6 +369,7 @@ class Instance:
         e = self.engine
         if not e.isAlive():
             raise RuntimeError("exit injected into a dead engine")
+        self._armed = False                 # the task was launched (and now ends)
         if not self.repeating:
             e._setExitReason(codes.exitReasons[reason])       # as HandleTaskExit does
         elif self._pending_thread is None:
@@ -374,6 +398,9 @@ class Instance:
     def post_mortem(self, answer):
         """Controller.postMortemCheck for this component (restart or final state). Returns the observation."""
         self.w.set_answer(answer)
+        if answer in ("finishPossible", "finishNotRequired"):
+            # while the hook runs, somebody else (another thread in reality) finishes the component
+            ON_HOOK[0] = lambda: self.cs.finish(codes.SHUTDOWN_STATE)
         seen = {}
         ctrl = self.w.controller
         real = ctrl._restartComponent
@@ -387,6 +414,7 @@ class Instance:
             ctrl.postMortemCheck(self.cs.state, self.cs)
         finally:
             del ctrl._restartComponent
+            ON_HOOK[0] = None
         return self.observe(seen.get("code", "none"))
 
     def direct(self, answer):
@@ -399,6 +427,12 @@ class Instance:
             self.last_exception = repr(e)
         self._collect_threads()
         return self.observe(code)
+
+    def finish(self, final):
+        """Somebody else (kill_all_components, _stopComponents, ...) calls ComponentState.finish() on the component."""
+        self.cs.finish({"shutdown": codes.SHUTDOWN_STATE, "failed": codes.FAILED_STATE, "finished": codes.FINISHED_STATE}[final])
+        self._collect_threads()
+        return self.observe()
 
     def late_restart(self, reason):
         """ComponentState.restart after the component got its final state."""
